@@ -413,7 +413,8 @@ class Body:
             k = cs.callee
             if not known or k is None or k in known or k not in self.facts.bodies or depth > 1:
                 continue
-            if inline_value(self.facts, k) is None and not _helper_shape_ok(self.facts, k):
+            # (a helper taking &mut arguments cannot be inlined as a value, but the calls it makes can still be shown)
+            if inline_value(self.facts, k) is None and not _helper_shape_ok(self.facts, k, allow_mut_args=True):
                 continue
             hb = self.facts.bodies[k]
             tm = tm or Terms(self)
@@ -730,14 +731,14 @@ def inline_value(facts, key, depth=0, force=False):
     return val
 
 
-def _helper_shape_ok(facts, key):
+def _helper_shape_ok(facts, key, allow_mut_args=False):
     b = facts.bodies.get(key)
     if b is None:
         return False
     r = b.raw
     if r.get("kind") not in ("fn", "assocfn") or r.get("impl_trait") or "{closure" in key:
         return False
-    return len(b.blocks) <= 80 and not b.natural_loops() and not any(b.locals[i]["ty"].startswith("&mut") for i in range(1, b.argc + 1))
+    return len(b.blocks) <= 80 and not b.natural_loops() and (allow_mut_args or not any(b.locals[i]["ty"].startswith("&mut") for i in range(1, b.argc + 1)))
 
 
 def substitute_args(t, args):
@@ -2534,7 +2535,18 @@ def iteration_table(body, head, max_paths=5000):
             dt = et.operand(d, bb)
             if dt[0] == "discr":
                 dt = ("discr", dt[1])
-            for v, tgt in [(v, tgt) for v, tgt in t["targets"]] + [("otherwise", t["otherwise"])]:
+            succs_ = [(v, tgt) for v, tgt in t["targets"]] + [("otherwise", t["otherwise"])]
+            known_ = unmut(dt)
+            if known_[0] == "const" and isinstance(known_[2], (bool, int)) and names is None:
+                # the discriminant is a constant on this path (e.g. a bool local assigned earlier on it): only that branch is feasible
+                kv = int(known_[2])
+                hit = [(v, tgt) for v, tgt in t["targets"] if v == kv]
+                succs_ = hit if hit else [("otherwise", t["otherwise"])]
+                for v, tgt in succs_:
+                    if body.blocks[tgt]["term"]["k"] != "unreachable":
+                        nexts.append((tgt, conds))
+                succs_ = []
+            for v, tgt in succs_:
                 label = v
                 if names is not None and v != "otherwise":
                     label = names.get(v, v)
@@ -2561,6 +2573,72 @@ def iteration_table(body, head, max_paths=5000):
             else:
                 stack.append((nb, env, c2, stores, seen, calls))
     return rows
+
+
+def elementwise_builds(body):
+    """places where a collection is built element by element from another one, whatever the spelling:
+       * `src.map(f).collect()`                               (form 'map')
+       * `for x in src { sink.push(f(x)) }` / `sink.insert(k(x), v(x))`  (form 'loop')
+    each as dict(src, elem, values (tuple of terms over `elem`), sink ('collect' | callee of push/insert), site (CallSite), form).
+    Only loops whose every turn adds exactly one element are reported (conditional pushes are not element-wise)."""
+    F = body.facts
+    out = []
+    U = lambda t: rewrite(nosite(deep_strip(t)), lambda x: unmut(x) if x[0] == "mut" else None)
+    tm = Terms(body)
+    for c in body.calls():
+        k = c.callee or ""
+        if itm(k, "collect") or "Iterator::collect" in k or "FromIterator" in k:
+            recv = U(tm.operand(c.args[0], c.bb))
+            chain = []
+            t_ = recv
+            while t_[0] == "call" and t_[2]:
+                chain.append(t_)
+                t_ = t_[2][0]
+            if any(re.search(r"Iterator>?::(flat_map|filter_map|filter|flatten|scan|take_while|skip_while)$", x[1]) for x in chain):
+                continue  # not one output per input
+            maps = [x for x in chain if itm(x[1], "map")]
+            if len(maps) != 1 or len(maps[0][2]) != 2 or maps[0][2][1][0] != "closure" or maps[0][2][1][1] not in F.bodies:
+                continue
+            cl = maps[0][2][1]
+            cb = F.bodies[cl[1]]
+            rt = U(Terms(cb).return_term())
+            alts = list(rt[1]) if rt[0] == "phi" else [rt]
+            kept = []
+            for a in alts:
+                if is_err_value(a) or result_variant(a) in ("Err", "None"):
+                    continue
+                if result_variant(a) in ("Ok", "Some"):
+                    a = agg_payload(a)
+                kept.append(a)
+            if len(kept) != 1:
+                continue
+            caps = cl[2]
+            elem = ("elem",)
+            val = rewrite(kept[0], lambda y: elem if y == ("arg", 2) else (U(caps[int(y[2])]) if y[0] == "field" and y[1] == ("arg", 1) and str(y[2]).isdigit() and int(y[2]) < len(caps) else None))
+            out.append({"src": maps[0][2][0], "chain": recv, "elem": elem, "values": (val,), "sink": "collect", "site": c, "form": "map", "targs": " ".join(c.func.get("targs", []))})
+    for h in sorted({h for h, _ in body.natural_loops()}):
+        try:
+            rows = iteration_table(body, h)
+        except Exception:
+            continue
+        backs = [r for r in rows if r.kind == "back"]
+        if not backs:
+            continue
+        per = []
+        for r in backs:
+            adds = [(k, U(v)) for _, k, v in r.sites if k and re.search(r"(Vec::<T, A>::push|::insert|VecDeque::<.*>::push_back)$", k)]
+            nxs = [U(v) for _, k, v in r.sites if k and itm(k, "next")]
+            per.append((adds, nxs))
+        if any(len(a) != 1 or len(n) != 1 for a, n in per):
+            continue
+        if len({(a[0][0], a[0][1], n[0]) for a, n in per}) != 1:
+            continue
+        (k, v), nx = per[0][0][0], per[0][1][0]
+        elem = ("elem",)
+        vals = tuple(rewrite(a, lambda y: elem if y == nx else None) for a in v[2][1:])
+        site = [c for c in body.calls() if c.callee == k and c.bb in set().union(*[b_ for hh, b_ in body.natural_loops() if hh == h])]
+        out.append({"src": nx[2][0], "chain": nx[2][0], "elem": elem, "values": vals, "sink": k, "sink_recv": v[2][0], "site": site[0] if site else None, "form": "loop", "targs": ""})
+    return out
 
 
 def accumulations(body, depth=0):
